@@ -1,7 +1,6 @@
 package c19
 
 import (
-	"bytes"
 	"encoding/xml"
 	"net/http"
 	"reflect"
@@ -18,7 +17,6 @@ import (
 	"mellium.im/xmpp/disco/info"
 	"mellium.im/xmpp/disco/items"
 	"mellium.im/xmpp/file"
-	"mellium.im/xmpp/form"
 	"mellium.im/xmpp/forward"
 	"mellium.im/xmpp/history"
 	"mellium.im/xmpp/internal/saslerr"
@@ -515,6 +513,3 @@ func buildRegistry() []*entry {
 
 	return es
 }
-
-var _ = bytes.MinRead
-var _ = form.NS
